@@ -11,7 +11,7 @@ H(name, module, tiers, timeout_s, inputs, bounds, encodes, extra=None)
 
 
 class H:
-    def __init__(self, name, module, tiers, timeout_s, inputs, bounds, encodes, extra=None, role="property"):
+    def __init__(self, name, module, tiers, timeout_s, inputs, bounds, encodes, extra=None, role="property", unwindset=None):
         self.name = name
         self.module = module
         self.tiers = tiers
@@ -20,6 +20,8 @@ class H:
         self.bounds = bounds
         self.encodes = encodes
         self.extra = extra or []
+        self.unwindset = unwindset or []  # [(kind, regex on the mangled loop id, bound)], resolved per run (kanirun.resolve_unwindset)
+        self.unwindset_resolved = {}
         self.role = role  # property | oracle-validation | environment-validation
 
     @property
@@ -111,6 +113,9 @@ PROPS["C08"] = dict(
           "loop-free", ["bucket_placement", "can_split_bucket"]),
         H("c08_leading_bit_count_kernel", "table", Q, 600, "two 20-byte ids: arbitrary first id, first differing bit position symbolic (0..=160), arbitrary bits behind it",
           "20-byte loops; unwind 22", ["leading_bit_count", "InfoHash::bitxor", "InfoHash::leading_zeros", "InfoHash::flip_bit"]),
+        H("c08_table_add_full_sorted_bucket", "table", Q, 1800,
+          "2-bucket table; bucket 0 (cannot split) full: 7 good nodes + one node of arbitrary standing (coarse ages); newcomer good or questionable (symbolic) for that bucket",
+          "one RoutingTable::add_node, no split possible; unwind 66", ["RoutingTable::add_node", "RoutingTable::bucket_node", "RoutingTable::split_bucket", "can_split_bucket", "Bucket::add_node"]),
         _c08("c08_bucket_all8_fresh", T, 3000, "0..7 (all)", "-", "an identity not in the bucket", COARSE),
         _c08("c08_bucket_all8_repeat0", T, 3000, "0..7 (all)", "-", "the identity stored in slot 0", COARSE),
         _c08("c08_bucket_all8_repeat5", T, 3000, "0..7 (all)", "-", "the identity stored in slot 5", COARSE),
@@ -297,11 +302,12 @@ PROPS["C14"] = dict(
 PROPS["C12"] = dict(
     design_ref="DESIGN.md 4 (C12), 8.5",
     jobs=3,  # the insertion instances need ~15 GB each (heap-backed Vec<Bucket> updated at a symbolic slot)
-    stubs=[CLOCK, STUB_RS],
+    stubs=[CLOCK, STUB_RS,
+           "RoutingTable.routers: under cfg(kani) the field's type is a 40-line linear-scan set (harness/rt.rs vset, hook in table.rs/bootstrap.rs) "
+           "instead of std HashSet<SocketAddr>; set semantics only, validated by c12_router_set_standin_laws"],
     assumptions=["table built directly: 2 buckets, local id 0..0; bucket 0 holds one identity in an arbitrary state (coarse ages) and 7 free slots; "
                  "one name per response; at most one insertion per instance (F21/F22 cost)"],
     outside=["'receiving a query never adds its sender' and the routing of responses by action prefix: handler.rs:193-393 (F7)",
-             "the router-address clause: `routers` is a std HashSet, not tractable here even on concrete data (F4/F17, DESIGN.md 8.9); seeds C12-1 and C12-X1 are missed for that reason",
              "node lists longer than 1 name; names that make a bucket split"],
     harnesses=[
         H("c12_add_nodes_fresh_name", "table", Q, 1500, "standing of the stored node symbolic; name = a fresh identity", "one add_nodes; unwind 66", ["RoutingTable::add_nodes", "RoutingTable::add_node", "Bucket::add_node", "Node::as_questionable", "Node::update"]),
@@ -310,7 +316,34 @@ PROPS["C12"] = dict(
         H("c12_add_nodes_own_id", "table", Q, 1500, "name = the local id", "one add_nodes", ["RoutingTable::add_nodes", "leading_bit_count"]),
         H("c12_add_nodes_existing_by_hearsay", "table", T, 2500, "name = the stored identity (arbitrary standing, incl. dropped as bad), responder = a fresh identity", "one add_nodes", ["RoutingTable::add_nodes", "Node::update"]),
         H("c12_add_nodes_alias_of_responder", "table", Q, 1500, "name = a fresh id on the responder's own address", "one add_nodes", ["RoutingTable::add_nodes"]),
+        H("c12_add_nodes_router_address_named", "table", Q, 1500, "routers = two addresses; name = a fresh id on one of them (symbolic choice); standing of the stored node symbolic",
+          "one add_nodes; router set = linear-scan stand-in under cfg(kani) (hook in table.rs)", ["RoutingTable::add_nodes", "RoutingTable::add_node"]),
+        H("c12_add_nodes_router_as_responder", "table", Q, 1500, "the responder itself answers from a router address and names a fresh node; standing of the stored node symbolic",
+          "one add_nodes", ["RoutingTable::add_nodes", "RoutingTable::add_node"]),
+        H("c12_add_nodes_router_ip_other_port", "table", T, 1500, "name = a fresh id on a router's IP with another port (not a router address: must be admitted)",
+          "one add_nodes", ["RoutingTable::add_nodes", "RoutingTable::add_node"]),
+        H("c12_router_set_standin_laws", "table", Q, 300, "two inserted addresses and a probe address, all IPv4 octets and ports symbolic",
+          "2 insertions; capacity 4", ["(environment only) crate::verif::vset::HashSet"], role="environment-validation"),
         H("c19_from_bytes_length_gate", "transaction", Q, 300, "32 symbolic bytes; every prefix length 0..=32", "lengths enumerated", ["TransactionID::from_bytes"]),
+    ],
+)
+
+STUB_VMAP = ("AnnounceStorage.storage: under cfg(kani) storage.rs's HashMap/Entry are a linear-scan map (harness/rt.rs vmap, hook in storage.rs) "
+             "instead of std HashMap (not tractable in CBMC, DESIGN.md F17); map semantics only, no property depends on hashing")
+
+C07_UW = [("loop", r"7storage|4vmap", 5)]  # every loop over the store's vectors / the map stand-in: <= 4 elements
+
+PROPS["C07"] = dict(
+    design_ref="DESIGN.md 8.11 (C07)",
+    stubs=[CLOCK, STUB_VMAP],
+    assumptions=["none beyond the virtual clock being monotonic"],
+    outside=["port derivation (port / implied_port) and the requester-family filter: handler.rs:249-305 (F7)",
+             "every store operation (add_item / find_items / insert_contact / remove_expired_items): renewal without duplication, the expiry queue's order, "
+             "lazy expiry from the queue head, the 500-pair capacity gate - none of the step harnesses written for them terminated within memory "
+             "(DESIGN.md F19/F27; sources kept unregistered in harness/storage.rs); seeds C07-R1..R3 are missed for that reason"],
+    harnesses=[
+        H("c07_expiry_boundary", "storage", Q, 300, "clock start and age of the pair symbolic in [0, 30 h] at 1 ns resolution",
+          "one pair", ["ItemExpiration::new", "ItemExpiration::is_expired", "ItemExpiration::eq"]),
     ],
 )
 
